@@ -724,6 +724,7 @@ def check_lexer(ctx, lib):
                             detail = "Eq pushed under the in-place pattern '=' on the second character"
                             errb = {bb for bb, i, st in b.stmts() if st["k"] == "assign" and st["place"]["l"] == 0 and not st["place"]["p"]
                                     and st["rv"]["k"] == "agg" and st["rv"].get("variant") == "Err"}
+                            errb |= {bb for bb, tt in b.calls() if tt["callee"] == "std::ops::FromResidual::from_residual" and tt["dest"]["l"] == 0 and not tt["dest"]["p"]}
                             r = reach_avoiding(b, nt["t"], avoid_blocks=errb | {pb})
                             leaks = [x for x in r if b.blocks[x]["term"]["k"] == "return" or (b.blocks[x]["term"]["k"] == "call" and b.blocks[x]["term"]["callee"].endswith("::push_back"))]
                             ok = not leaks
